@@ -26,11 +26,25 @@
   When the results are well formed (every spec theorem says so) `EqU`/`EqS` ⇒ the `As` cast of `r₁`
   is `r₂` (`result_is_cast`).
 
-  §1  operands: `SameU`/`SameS` ⇔ `As` cast                       (C09)
-  §2  (i)  `op_digit_independent`: one corollary per operation       (C01 C02 C03 C05 C06 C07 C08 C10 C11)
-  §3  (ii) `op_extend_commutes`: add sub mul div rem pow shl cmp, decimal print / parse
-  §4  (iii) constants                                                (Model/Consts.lean)
-  §5  (iv) alias table
+  §1  operands: `SameU`/`SameS` ⇔ `As` cast (`sameU_iff_cast`, `sameS_iff_cast`, `result_is_cast`)   (C09)
+  §2  (i)  digit-type independence: one theorem per operation family `indep_*`, listing every form
+           (C01 add/sub/neg/abs/…, C02 mul, C03 div/rem incl. zero divisor and `MIN / -1`, C05 shifts and
+           rotations for every amount, C06 bit operations, C07 comparisons/sign, C08 pow/ilog,
+           C10 parsing, C11 printing), and the one-line-per-function table `op_digit_independent`
+           (197 functions).
+  §3  (ii) extension: `ext_u_arith`, `ext_i_arith`, `ext_pow`, `ext_u_div`, `ext_i_div`, `ext_shl`,
+           `ext_cmp_print`, `ext_u_parse`, `ext_i_parse`; summary `op_extend_commutes`.
+  §4  (iii) constants: `bits_bytes`, `u_min_max_zero`, `u_one_to_ten`, `i_min_max_zero`,
+           `i_one_to_ten`, `consts_real`, `small_width_counterexamples`, `byName_spec`  (Model/Consts.lean)
+  §5  (iv) alias table: `aliases_widths`, `aliases_names`, `aliases_complete`, `aliases_spec`
+
+  Honest limits of the statements (all inherited from the cited properties):
+  * error KIND of `from_str_radix` on over-long malformed strings is not claimed equal (C10 leaves it
+    open: `Expect.anyErr`); everything else about parsing is (`ParseRel`).
+  * `BInt::div_floor/div_ceil/checked_next_multiple_of` at `MIN / -1`, and the non-`checked`
+    `next_multiple_of` when the multiple is not representable, are not covered (no C03 theorem).
+  * `op_extend_commutes` for signed `div`/`rem` excludes `MIN / -1` of the narrow type — there the
+    narrow type overflows and the wide one does not (example after `ext_i_div`).
 -/
 import Bnum.Lemmas.Indep
 import Bnum.Props.C01
@@ -725,7 +739,7 @@ example : UI.swapBytes (8 * 1) [0x78, 0x56, 0x34, 0x12] = [0x12, 0x34, 0x56, 0x7
 /-! ### C07: comparisons and sign -/
 
 /-- `BUint`: `cmp`, `partial_cmp`, `eq`, `ne`, `==`, `<`, `<=`, `>`, `>=`, `max`, `min`, `clamp` -/
-theorem indep_u_cmp {m₁ m₂ x₁ x₂ : List Nat} (c : Cfgs w₁ n₁ w₂ n₂) (ha : SameU w₁ n₁ w₂ n₂ a₁ a₂)
+theorem indep_u_cmp {m₁ m₂ x₁ x₂ : List Nat} (_c : Cfgs w₁ n₁ w₂ n₂) (ha : SameU w₁ n₁ w₂ n₂ a₁ a₂)
     (hb : SameU w₁ n₁ w₂ n₂ b₁ b₂) (hm : SameU w₁ n₁ w₂ n₂ m₁ m₂) (hx : SameU w₁ n₁ w₂ n₂ x₁ x₂) :
     UI.cmp a₁ b₁ = UI.cmp a₂ b₂ ∧
     Traits.partialCmp UI.cmp a₁ b₁ = Traits.partialCmp UI.cmp a₂ b₂ ∧
@@ -992,6 +1006,416 @@ theorem indep_print (c : Cfgs w₁ n₁ w₂ n₂) (h8₁ : 8 ≤ w₁) (h8₂ :
 example : II.toStrRadix 8 [0xfe, 0xff, 0xff, 0xff] 10 = .ok [0x2d, 0x32] ∧
     II.toStrRadix 16 [0xfffe, 0xffff] 10 = .ok [0x2d, 0x32] := by decide
 
+/-! ### summary: `op_digit_independent`
+
+  The per-operation theorems above, collected into one table per signedness for the operations that
+  need no hypothesis on the digit width beyond `2 ≤ w` (vocabulary: Lemmas/Indep.lean, `DI1`/`DI2`/
+  `DI3`, `RU` … `REq`).  At equal total width `SameU` (equal bit patterns) is also `SameS`
+  (`sameU_iff_sameS`), so a single operand relation serves both tables.  Not in the tables because
+  they carry extra hypotheses: `indep_i_div_round` (not `MIN / -1`), `indep_bit` (`w = 2^s`),
+  `indep_reverse_swap` (`8 ∣ w`), `indep_u_ilog` / `indep_i_ilog` (`BITS < 2^32`, `10 < 2^w`),
+  `indep_u_parse` / `indep_i_parse` / `indep_from_radix` / `indep_print` (`8 ≤ w` …). -/
+
+/-- (i) SUMMARY TABLE — every operation of C01–C03, C05–C08, one line per function: results of equal value /
+    flag / `Option`-ness / panic behaviour whichever digit type the width is built from.  First the `BUint`
+    functions (and the bit-pattern operations shared with `BInt`), then the `BInt` functions.
+    `dbg` = `cfg(debug_assertions)`, `ci` = carry / borrow in, `s` = shift / rotate amount, `e` = exponent. -/
+theorem op_digit_independent (dbg ci : Bool) (s e : Nat) :
+    DI2 RPU UI.overflowingAdd ∧
+    DI2 ROU UI.checkedAdd ∧
+    DI2 RXU UI.strictAdd ∧
+    DI2 RU UI.wrappingAdd ∧
+    DI2 RU UI.saturatingAdd ∧
+    DI2 RXU (UI.add dbg) ∧
+    DI2 RPU UI.overflowingSub ∧
+    DI2 ROU UI.checkedSub ∧
+    DI2 RXU UI.strictSub ∧
+    DI2 RU UI.wrappingSub ∧
+    DI2 RU UI.saturatingSub ∧
+    DI2 RXU (UI.sub dbg) ∧
+    DI1 RPU UI.overflowingNeg ∧
+    DI1 ROU UI.checkedNeg ∧
+    DI1 RXU UI.strictNeg ∧
+    DI1 RU UI.wrappingNeg ∧
+    DI2 RPU UI.overflowingAddSigned ∧
+    DI2 ROU UI.checkedAddSigned ∧
+    DI2 RXU UI.strictAddSigned ∧
+    DI2 RU UI.wrappingAddSigned ∧
+    DI2 RU UI.saturatingAddSigned ∧
+    DI2 RPU (fun w a b => UI.carryingAdd w a b ci) ∧
+    DI2 RPU (fun w a b => UI.borrowingSub w a b ci) ∧
+    DI2 RXU (UI.midpoint dbg) ∧
+    DI2 RU UI.absDiff ∧
+    DI2 RPU UI.overflowingMul ∧
+    DI2 ROU UI.checkedMul ∧
+    DI2 RXU UI.strictMul ∧
+    DI2 RU UI.wrappingMul ∧
+    DI2 RU UI.saturatingMul ∧
+    DI2 RXU (fun w => UI.mul w dbg) ∧
+    DI2 R2U UI.wideningMul ∧
+    DI3 R2U UI.carryingMul ∧
+    DI2 RXOU UI.checkedDiv ∧
+    DI2 RXOU UI.checkedRem ∧
+    DI2 RXOU UI.checkedDivEuclid ∧
+    DI2 RXOU UI.checkedRemEuclid ∧
+    DI2 RXPU UI.overflowingDiv ∧
+    DI2 RXPU UI.overflowingRem ∧
+    DI2 RXPU UI.overflowingDivEuclid ∧
+    DI2 RXPU UI.overflowingRemEuclid ∧
+    DI2 RXU UI.wrappingDiv ∧
+    DI2 RXU UI.wrappingRem ∧
+    DI2 RXU UI.wrappingDivEuclid ∧
+    DI2 RXU UI.wrappingRemEuclid ∧
+    DI2 RXU UI.saturatingDiv ∧
+    DI2 RXU UI.div ∧
+    DI2 RXU UI.rem ∧
+    DI2 RXU UI.divEuclid ∧
+    DI2 RXU UI.remEuclid ∧
+    DI2 RXU UI.divFloor ∧
+    DI2 RXU (UI.divCeil dbg) ∧
+    DI2 RXOU (UI.checkedNextMultipleOf dbg) ∧
+    DI1 RXU (fun w a => UI.shl dbg w a s) ∧
+    DI1 RXU (fun w a => UI.strictShl w a s) ∧
+    DI1 ROU (fun w a => UI.checkedShl w a s) ∧
+    DI1 RPU (fun w a => UI.overflowingShl w a s) ∧
+    DI1 RU (fun w a => UI.wrappingShl w a s) ∧
+    DI1 RU (fun w a => UI.unboundedShl w a s) ∧
+    DI1 RXU (fun w a => UI.shr dbg w a s) ∧
+    DI1 RXU (fun w a => UI.strictShr w a s) ∧
+    DI1 ROU (fun w a => UI.checkedShr w a s) ∧
+    DI1 RPU (fun w a => UI.overflowingShr w a s) ∧
+    DI1 RU (fun w a => UI.wrappingShr w a s) ∧
+    DI1 RU (fun w a => UI.unboundedShr w a s) ∧
+    DI1 RU (fun w a => UI.rotateLeft w a s) ∧
+    DI1 RU (fun w a => UI.rotateRight w a s) ∧
+    DI1 RU (fun w a => II.rotateLeft w a s) ∧
+    DI1 RU (fun w a => II.rotateRight w a s) ∧
+    DI2 RU (fun _ a b => UI.bitand a b) ∧
+    DI2 RU (fun _ a b => UI.bitor a b) ∧
+    DI2 RU (fun _ a b => UI.bitxor a b) ∧
+    DI1 RU UI.not ∧
+    DI1 REq UI.countOnes ∧
+    DI1 REq UI.countZeros ∧
+    DI1 REq UI.leadingZeros ∧
+    DI1 REq UI.trailingZeros ∧
+    DI1 REq UI.leadingOnes ∧
+    DI1 REq UI.trailingOnes ∧
+    DI1 REq UI.bits ∧
+    DI1 REq (fun _ a => isZero a) ∧
+    DI1 REq (fun _ a => isOne a) ∧
+    DI1 REq UI.isPowerOfTwo ∧
+    DI2 REq (fun _ a b => UI.cmp a b) ∧
+    DI2 REq (fun _ a b => Traits.partialCmp UI.cmp a b) ∧
+    DI2 REq (fun _ a b => UI.eq a b) ∧
+    DI2 REq (fun _ a b => UI.ne a b) ∧
+    DI2 REq (fun _ a b => Traits.opEq a b) ∧
+    DI2 REq (fun _ a b => Traits.opNe a b) ∧
+    DI2 REq (fun _ a b => CmpImpl.lt UI.cmp a b) ∧
+    DI2 REq (fun _ a b => CmpImpl.le UI.cmp a b) ∧
+    DI2 REq (fun _ a b => CmpImpl.gt UI.cmp a b) ∧
+    DI2 REq (fun _ a b => CmpImpl.ge UI.cmp a b) ∧
+    DI2 RU (fun _ a b => CmpImpl.max UI.cmp a b) ∧
+    DI2 RU (fun _ a b => CmpImpl.min UI.cmp a b) ∧
+    DI3 RXU (fun _ a mn mx => CmpImpl.clamp UI.cmp a mn mx) ∧
+    DI1 RPU (fun w a => UI.overflowingPow w a e) ∧
+    DI1 ROU (fun w a => UI.checkedPow w a e) ∧
+    DI1 RXU (fun w a => UI.strictPow w a e) ∧
+    DI1 RU (fun w a => UI.wrappingPow w a e) ∧
+    DI1 RU (fun w a => UI.saturatingPow w a e) ∧
+    DI1 RXU (fun w a => UI.pow w dbg a e) ∧
+    DI2 RPS II.overflowingAdd ∧
+    DI2 ROS II.checkedAdd ∧
+    DI2 RXS II.strictAdd ∧
+    DI2 RS II.wrappingAdd ∧
+    DI2 RS II.saturatingAdd ∧
+    DI2 RXS (II.add dbg) ∧
+    DI2 RPS II.overflowingSub ∧
+    DI2 ROS II.checkedSub ∧
+    DI2 RXS II.strictSub ∧
+    DI2 RS II.wrappingSub ∧
+    DI2 RS II.saturatingSub ∧
+    DI2 RXS (II.sub dbg) ∧
+    DI1 RPS II.overflowingNeg ∧
+    DI1 ROS II.checkedNeg ∧
+    DI1 RXS II.strictNeg ∧
+    DI1 RS II.wrappingNeg ∧
+    DI1 RS II.saturatingNeg ∧
+    DI1 RPS II.overflowingAbs ∧
+    DI1 ROS II.checkedAbs ∧
+    DI1 RXS II.strictAbs ∧
+    DI1 RS II.wrappingAbs ∧
+    DI1 RS II.saturatingAbs ∧
+    DI1 RU II.unsignedAbs ∧
+    DI2 RPS II.overflowingAddUnsigned ∧
+    DI2 ROS II.checkedAddUnsigned ∧
+    DI2 RXS II.strictAddUnsigned ∧
+    DI2 RS II.wrappingAddUnsigned ∧
+    DI2 RS II.saturatingAddUnsigned ∧
+    DI2 RPS II.overflowingSubUnsigned ∧
+    DI2 ROS II.checkedSubUnsigned ∧
+    DI2 RXS II.strictSubUnsigned ∧
+    DI2 RS II.wrappingSubUnsigned ∧
+    DI2 RS II.saturatingSubUnsigned ∧
+    DI2 RPS (fun w a b => II.carryingAdd w a b ci) ∧
+    DI2 RPS (fun w a b => II.borrowingSub w a b ci) ∧
+    DI2 RXS (II.midpoint dbg) ∧
+    DI2 RU II.absDiff ∧
+    DI2 RPS II.overflowingMul ∧
+    DI2 ROS II.checkedMul ∧
+    DI2 RXS II.strictMul ∧
+    DI2 RS II.wrappingMul ∧
+    DI2 RS II.saturatingMul ∧
+    DI2 RXS (fun w => II.mul w dbg) ∧
+    DI2 RXOS (II.checkedDiv dbg) ∧
+    DI2 RXOS (II.checkedRem dbg) ∧
+    DI2 RXOS (II.checkedDivEuclid dbg) ∧
+    DI2 RXOS (II.checkedRemEuclid dbg) ∧
+    DI2 RXPS (II.overflowingDiv dbg) ∧
+    DI2 RXPS (II.overflowingRem dbg) ∧
+    DI2 RXPS (II.overflowingDivEuclid dbg) ∧
+    DI2 RXPS (II.overflowingRemEuclid dbg) ∧
+    DI2 RXS (II.wrappingDiv dbg) ∧
+    DI2 RXS (II.wrappingRem dbg) ∧
+    DI2 RXS (II.wrappingDivEuclid dbg) ∧
+    DI2 RXS (II.wrappingRemEuclid dbg) ∧
+    DI2 RXS (II.saturatingDiv dbg) ∧
+    DI2 RXS (II.div dbg) ∧
+    DI2 RXS (II.rem dbg) ∧
+    DI2 RXS (II.divEuclid dbg) ∧
+    DI2 RXS (II.remEuclid dbg) ∧
+    DI1 RXS (fun w a => II.shl dbg w a s) ∧
+    DI1 RXS (fun w a => II.strictShl w a s) ∧
+    DI1 ROS (fun w a => II.checkedShl w a s) ∧
+    DI1 RPS (fun w a => II.overflowingShl w a s) ∧
+    DI1 RS (fun w a => II.wrappingShl w a s) ∧
+    DI1 RS (fun w a => II.unboundedShl w a s) ∧
+    DI1 RXS (fun w a => II.shr dbg w a s) ∧
+    DI1 RXS (fun w a => II.strictShr w a s) ∧
+    DI1 ROS (fun w a => II.checkedShr w a s) ∧
+    DI1 RPS (fun w a => II.overflowingShr w a s) ∧
+    DI1 RS (fun w a => II.wrappingShr w a s) ∧
+    DI1 RS (fun w a => II.unboundedShr w a s) ∧
+    DI1 REq II.isPowerOfTwo ∧
+    DI2 REq II.cmp ∧
+    DI2 REq (fun w a b => Traits.partialCmp (II.cmp w) a b) ∧
+    DI2 REq (fun _ a b => II.eq a b) ∧
+    DI2 REq (fun _ a b => II.ne a b) ∧
+    DI2 REq (fun _ a b => Traits.opEq a b) ∧
+    DI2 REq (fun _ a b => Traits.opNe a b) ∧
+    DI2 REq (fun w a b => CmpImpl.lt (II.cmp w) a b) ∧
+    DI2 REq (fun w a b => CmpImpl.le (II.cmp w) a b) ∧
+    DI2 REq (fun w a b => CmpImpl.gt (II.cmp w) a b) ∧
+    DI2 REq (fun w a b => CmpImpl.ge (II.cmp w) a b) ∧
+    DI2 RS (fun w a b => CmpImpl.max (II.cmp w) a b) ∧
+    DI2 RS (fun w a b => CmpImpl.min (II.cmp w) a b) ∧
+    DI3 RXS (fun w a mn mx => CmpImpl.clamp (II.cmp w) a mn mx) ∧
+    DI1 REq isNegative ∧
+    DI1 REq II.isPositive ∧
+    DI1 RS II.signum ∧
+    DI1 RPS (fun w a => II.overflowingPow w a e) ∧
+    DI1 ROS (fun w a => II.checkedPow w a e) ∧
+    DI1 RXS (fun w a => II.strictPow w a e) ∧
+    DI1 RS (fun w a => II.wrappingPow w a e) ∧
+    DI1 RS (fun w a => II.saturatingPow w a e) ∧
+    DI1 RXS (fun w a => II.pow w dbg a e) :=
+  ⟨fun _ _ _ _ _ _ _ _ c ha hb => (indep_u_add c ha hb dbg).1,
+   fun _ _ _ _ _ _ _ _ c ha hb => (indep_u_add c ha hb dbg).2.1,
+   fun _ _ _ _ _ _ _ _ c ha hb => (indep_u_add c ha hb dbg).2.2.1,
+   fun _ _ _ _ _ _ _ _ c ha hb => (indep_u_add c ha hb dbg).2.2.2.1,
+   fun _ _ _ _ _ _ _ _ c ha hb => (indep_u_add c ha hb dbg).2.2.2.2.1,
+   fun _ _ _ _ _ _ _ _ c ha hb => (indep_u_add c ha hb dbg).2.2.2.2.2,
+   fun _ _ _ _ _ _ _ _ c ha hb => (indep_u_sub c ha hb dbg).1,
+   fun _ _ _ _ _ _ _ _ c ha hb => (indep_u_sub c ha hb dbg).2.1,
+   fun _ _ _ _ _ _ _ _ c ha hb => (indep_u_sub c ha hb dbg).2.2.1,
+   fun _ _ _ _ _ _ _ _ c ha hb => (indep_u_sub c ha hb dbg).2.2.2.1,
+   fun _ _ _ _ _ _ _ _ c ha hb => (indep_u_sub c ha hb dbg).2.2.2.2.1,
+   fun _ _ _ _ _ _ _ _ c ha hb => (indep_u_sub c ha hb dbg).2.2.2.2.2,
+   fun _ _ _ _ _ _ c ha => (indep_u_neg c ha).1,
+   fun _ _ _ _ _ _ c ha => (indep_u_neg c ha).2.1,
+   fun _ _ _ _ _ _ c ha => (indep_u_neg c ha).2.2.1,
+   fun _ _ _ _ _ _ c ha => (indep_u_neg c ha).2.2.2,
+   fun _ _ _ _ _ _ _ _ c ha hb => (indep_u_add_signed c ha (hb.toS c)).1,
+   fun _ _ _ _ _ _ _ _ c ha hb => (indep_u_add_signed c ha (hb.toS c)).2.1,
+   fun _ _ _ _ _ _ _ _ c ha hb => (indep_u_add_signed c ha (hb.toS c)).2.2.1,
+   fun _ _ _ _ _ _ _ _ c ha hb => (indep_u_add_signed c ha (hb.toS c)).2.2.2.1,
+   fun _ _ _ _ _ _ _ _ c ha hb => (indep_u_add_signed c ha (hb.toS c)).2.2.2.2,
+   fun _ _ _ _ _ _ _ _ c ha hb => (indep_u_carrying c ha hb ci).1,
+   fun _ _ _ _ _ _ _ _ c ha hb => (indep_u_carrying c ha hb ci).2,
+   fun _ _ _ _ _ _ _ _ c ha hb => (indep_u_midpoint_abs_diff c ha hb dbg).1,
+   fun _ _ _ _ _ _ _ _ c ha hb => (indep_u_midpoint_abs_diff c ha hb dbg).2,
+   fun _ _ _ _ _ _ _ _ c ha hb => (indep_u_mul c ha hb dbg).1,
+   fun _ _ _ _ _ _ _ _ c ha hb => (indep_u_mul c ha hb dbg).2.1,
+   fun _ _ _ _ _ _ _ _ c ha hb => (indep_u_mul c ha hb dbg).2.2.1,
+   fun _ _ _ _ _ _ _ _ c ha hb => (indep_u_mul c ha hb dbg).2.2.2.1,
+   fun _ _ _ _ _ _ _ _ c ha hb => (indep_u_mul c ha hb dbg).2.2.2.2.1,
+   fun _ _ _ _ _ _ _ _ c ha hb => (indep_u_mul c ha hb dbg).2.2.2.2.2,
+   fun _ _ _ _ _ _ _ _ c ha hb => (indep_u_widening_mul c ha hb ha).1,
+   fun _ _ _ _ _ _ _ _ _ _ c ha hb hc => (indep_u_widening_mul c ha hb hc).2,
+   fun _ _ _ _ _ _ _ _ c ha hb => (indep_u_div c ha hb dbg).1,
+   fun _ _ _ _ _ _ _ _ c ha hb => (indep_u_div c ha hb dbg).2.1,
+   fun _ _ _ _ _ _ _ _ c ha hb => (indep_u_div c ha hb dbg).2.2.1,
+   fun _ _ _ _ _ _ _ _ c ha hb => (indep_u_div c ha hb dbg).2.2.2.1,
+   fun _ _ _ _ _ _ _ _ c ha hb => (indep_u_div c ha hb dbg).2.2.2.2.1,
+   fun _ _ _ _ _ _ _ _ c ha hb => (indep_u_div c ha hb dbg).2.2.2.2.2.1,
+   fun _ _ _ _ _ _ _ _ c ha hb => (indep_u_div c ha hb dbg).2.2.2.2.2.2.1,
+   fun _ _ _ _ _ _ _ _ c ha hb => (indep_u_div c ha hb dbg).2.2.2.2.2.2.2.1,
+   fun _ _ _ _ _ _ _ _ c ha hb => (indep_u_div c ha hb dbg).2.2.2.2.2.2.2.2.1,
+   fun _ _ _ _ _ _ _ _ c ha hb => (indep_u_div c ha hb dbg).2.2.2.2.2.2.2.2.2.1,
+   fun _ _ _ _ _ _ _ _ c ha hb => (indep_u_div c ha hb dbg).2.2.2.2.2.2.2.2.2.2.1,
+   fun _ _ _ _ _ _ _ _ c ha hb => (indep_u_div c ha hb dbg).2.2.2.2.2.2.2.2.2.2.2.1,
+   fun _ _ _ _ _ _ _ _ c ha hb => (indep_u_div c ha hb dbg).2.2.2.2.2.2.2.2.2.2.2.2.1,
+   fun _ _ _ _ _ _ _ _ c ha hb => (indep_u_div c ha hb dbg).2.2.2.2.2.2.2.2.2.2.2.2.2.1,
+   fun _ _ _ _ _ _ _ _ c ha hb => (indep_u_div c ha hb dbg).2.2.2.2.2.2.2.2.2.2.2.2.2.2.1,
+   fun _ _ _ _ _ _ _ _ c ha hb => (indep_u_div c ha hb dbg).2.2.2.2.2.2.2.2.2.2.2.2.2.2.2.1,
+   fun _ _ _ _ _ _ _ _ c ha hb => (indep_u_div c ha hb dbg).2.2.2.2.2.2.2.2.2.2.2.2.2.2.2.2.1,
+   fun _ _ _ _ _ _ _ _ c ha hb => (indep_u_div c ha hb dbg).2.2.2.2.2.2.2.2.2.2.2.2.2.2.2.2.2.1,
+   fun _ _ _ _ _ _ _ _ c ha hb => (indep_u_div c ha hb dbg).2.2.2.2.2.2.2.2.2.2.2.2.2.2.2.2.2.2.1,
+   fun _ _ _ _ _ _ _ _ c ha hb => (indep_u_div c ha hb dbg).2.2.2.2.2.2.2.2.2.2.2.2.2.2.2.2.2.2.2,
+   fun _ _ _ _ _ _ c ha => (indep_u_shift c ha s dbg).1.1,
+   fun _ _ _ _ _ _ c ha => (indep_u_shift c ha s dbg).1.2.1,
+   fun _ _ _ _ _ _ c ha => (indep_u_shift c ha s dbg).1.2.2.1,
+   fun _ _ _ _ _ _ c ha => (indep_u_shift c ha s dbg).1.2.2.2.1,
+   fun _ _ _ _ _ _ c ha => (indep_u_shift c ha s dbg).1.2.2.2.2.1,
+   fun _ _ _ _ _ _ c ha => (indep_u_shift c ha s dbg).1.2.2.2.2.2,
+   fun _ _ _ _ _ _ c ha => (indep_u_shift c ha s dbg).2.1,
+   fun _ _ _ _ _ _ c ha => (indep_u_shift c ha s dbg).2.2.1,
+   fun _ _ _ _ _ _ c ha => (indep_u_shift c ha s dbg).2.2.2.1,
+   fun _ _ _ _ _ _ c ha => (indep_u_shift c ha s dbg).2.2.2.2.1,
+   fun _ _ _ _ _ _ c ha => (indep_u_shift c ha s dbg).2.2.2.2.2.1,
+   fun _ _ _ _ _ _ c ha => (indep_u_shift c ha s dbg).2.2.2.2.2.2,
+   fun _ _ _ _ _ _ c ha => (indep_rotate c ha s).1,
+   fun _ _ _ _ _ _ c ha => (indep_rotate c ha s).2.1,
+   fun _ _ _ _ _ _ c ha => (indep_rotate c ha s).2.2.1,
+   fun _ _ _ _ _ _ c ha => (indep_rotate c ha s).2.2.2,
+   fun _ _ _ _ _ _ _ _ c ha hb => (indep_logic c ha hb).1,
+   fun _ _ _ _ _ _ _ _ c ha hb => (indep_logic c ha hb).2.1,
+   fun _ _ _ _ _ _ _ _ c ha hb => (indep_logic c ha hb).2.2.1,
+   fun _ _ _ _ _ _ c ha => (indep_logic c ha ha).2.2.2,
+   fun _ _ _ _ _ _ c ha => (indep_counts c ha).1,
+   fun _ _ _ _ _ _ c ha => (indep_counts c ha).2.1,
+   fun _ _ _ _ _ _ c ha => (indep_counts c ha).2.2.1,
+   fun _ _ _ _ _ _ c ha => (indep_counts c ha).2.2.2.1,
+   fun _ _ _ _ _ _ c ha => (indep_counts c ha).2.2.2.2.1,
+   fun _ _ _ _ _ _ c ha => (indep_counts c ha).2.2.2.2.2.1,
+   fun _ _ _ _ _ _ c ha => (indep_counts c ha).2.2.2.2.2.2.1,
+   fun _ _ _ _ _ _ c ha => (indep_counts c ha).2.2.2.2.2.2.2.1,
+   fun _ _ _ _ _ _ c ha => (indep_counts c ha).2.2.2.2.2.2.2.2.1,
+   fun _ _ _ _ _ _ c ha => (indep_counts c ha).2.2.2.2.2.2.2.2.2,
+   fun _ _ _ _ _ _ _ _ c ha hb => (indep_u_cmp c ha hb ha ha).1,
+   fun _ _ _ _ _ _ _ _ c ha hb => (indep_u_cmp c ha hb ha ha).2.1,
+   fun _ _ _ _ _ _ _ _ c ha hb => (indep_u_cmp c ha hb ha ha).2.2.1,
+   fun _ _ _ _ _ _ _ _ c ha hb => (indep_u_cmp c ha hb ha ha).2.2.2.1,
+   fun _ _ _ _ _ _ _ _ c ha hb => (indep_u_cmp c ha hb ha ha).2.2.2.2.1,
+   fun _ _ _ _ _ _ _ _ c ha hb => (indep_u_cmp c ha hb ha ha).2.2.2.2.2.1,
+   fun _ _ _ _ _ _ _ _ c ha hb => (indep_u_cmp c ha hb ha ha).2.2.2.2.2.2.1,
+   fun _ _ _ _ _ _ _ _ c ha hb => (indep_u_cmp c ha hb ha ha).2.2.2.2.2.2.2.1,
+   fun _ _ _ _ _ _ _ _ c ha hb => (indep_u_cmp c ha hb ha ha).2.2.2.2.2.2.2.2.1,
+   fun _ _ _ _ _ _ _ _ c ha hb => (indep_u_cmp c ha hb ha ha).2.2.2.2.2.2.2.2.2.1,
+   fun _ _ _ _ _ _ _ _ c ha hb => (indep_u_cmp c ha hb ha ha).2.2.2.2.2.2.2.2.2.2.1,
+   fun _ _ _ _ _ _ _ _ c ha hb => (indep_u_cmp c ha hb ha ha).2.2.2.2.2.2.2.2.2.2.2.1,
+   fun _ _ _ _ _ _ _ _ _ _ c ha hb hc => (indep_u_cmp c ha ha hb hc).2.2.2.2.2.2.2.2.2.2.2.2,
+   fun _ _ _ _ _ _ c ha => (indep_u_pow c ha e dbg).1,
+   fun _ _ _ _ _ _ c ha => (indep_u_pow c ha e dbg).2.1,
+   fun _ _ _ _ _ _ c ha => (indep_u_pow c ha e dbg).2.2.1,
+   fun _ _ _ _ _ _ c ha => (indep_u_pow c ha e dbg).2.2.2.1,
+   fun _ _ _ _ _ _ c ha => (indep_u_pow c ha e dbg).2.2.2.2.1,
+   fun _ _ _ _ _ _ c ha => (indep_u_pow c ha e dbg).2.2.2.2.2,
+   fun _ _ _ _ _ _ _ _ c ha hb => (indep_i_add c (ha.toS c) (hb.toS c) dbg).1,
+   fun _ _ _ _ _ _ _ _ c ha hb => (indep_i_add c (ha.toS c) (hb.toS c) dbg).2.1,
+   fun _ _ _ _ _ _ _ _ c ha hb => (indep_i_add c (ha.toS c) (hb.toS c) dbg).2.2.1,
+   fun _ _ _ _ _ _ _ _ c ha hb => (indep_i_add c (ha.toS c) (hb.toS c) dbg).2.2.2.1,
+   fun _ _ _ _ _ _ _ _ c ha hb => (indep_i_add c (ha.toS c) (hb.toS c) dbg).2.2.2.2.1,
+   fun _ _ _ _ _ _ _ _ c ha hb => (indep_i_add c (ha.toS c) (hb.toS c) dbg).2.2.2.2.2,
+   fun _ _ _ _ _ _ _ _ c ha hb => (indep_i_sub c (ha.toS c) (hb.toS c) dbg).1,
+   fun _ _ _ _ _ _ _ _ c ha hb => (indep_i_sub c (ha.toS c) (hb.toS c) dbg).2.1,
+   fun _ _ _ _ _ _ _ _ c ha hb => (indep_i_sub c (ha.toS c) (hb.toS c) dbg).2.2.1,
+   fun _ _ _ _ _ _ _ _ c ha hb => (indep_i_sub c (ha.toS c) (hb.toS c) dbg).2.2.2.1,
+   fun _ _ _ _ _ _ _ _ c ha hb => (indep_i_sub c (ha.toS c) (hb.toS c) dbg).2.2.2.2.1,
+   fun _ _ _ _ _ _ _ _ c ha hb => (indep_i_sub c (ha.toS c) (hb.toS c) dbg).2.2.2.2.2,
+   fun _ _ _ _ _ _ c ha => (indep_i_neg c (ha.toS c)).1,
+   fun _ _ _ _ _ _ c ha => (indep_i_neg c (ha.toS c)).2.1,
+   fun _ _ _ _ _ _ c ha => (indep_i_neg c (ha.toS c)).2.2.1,
+   fun _ _ _ _ _ _ c ha => (indep_i_neg c (ha.toS c)).2.2.2.1,
+   fun _ _ _ _ _ _ c ha => (indep_i_neg c (ha.toS c)).2.2.2.2,
+   fun _ _ _ _ _ _ c ha => (indep_i_abs c (ha.toS c)).1,
+   fun _ _ _ _ _ _ c ha => (indep_i_abs c (ha.toS c)).2.1,
+   fun _ _ _ _ _ _ c ha => (indep_i_abs c (ha.toS c)).2.2.1,
+   fun _ _ _ _ _ _ c ha => (indep_i_abs c (ha.toS c)).2.2.2.1,
+   fun _ _ _ _ _ _ c ha => (indep_i_abs c (ha.toS c)).2.2.2.2.1,
+   fun _ _ _ _ _ _ c ha => (indep_i_abs c (ha.toS c)).2.2.2.2.2,
+   fun _ _ _ _ _ _ _ _ c ha hb => (indep_i_add_unsigned c (ha.toS c) hb).1,
+   fun _ _ _ _ _ _ _ _ c ha hb => (indep_i_add_unsigned c (ha.toS c) hb).2.1,
+   fun _ _ _ _ _ _ _ _ c ha hb => (indep_i_add_unsigned c (ha.toS c) hb).2.2.1,
+   fun _ _ _ _ _ _ _ _ c ha hb => (indep_i_add_unsigned c (ha.toS c) hb).2.2.2.1,
+   fun _ _ _ _ _ _ _ _ c ha hb => (indep_i_add_unsigned c (ha.toS c) hb).2.2.2.2,
+   fun _ _ _ _ _ _ _ _ c ha hb => (indep_i_sub_unsigned c (ha.toS c) hb).1,
+   fun _ _ _ _ _ _ _ _ c ha hb => (indep_i_sub_unsigned c (ha.toS c) hb).2.1,
+   fun _ _ _ _ _ _ _ _ c ha hb => (indep_i_sub_unsigned c (ha.toS c) hb).2.2.1,
+   fun _ _ _ _ _ _ _ _ c ha hb => (indep_i_sub_unsigned c (ha.toS c) hb).2.2.2.1,
+   fun _ _ _ _ _ _ _ _ c ha hb => (indep_i_sub_unsigned c (ha.toS c) hb).2.2.2.2,
+   fun _ _ _ _ _ _ _ _ c ha hb => (indep_i_carrying c (ha.toS c) (hb.toS c) ci).1,
+   fun _ _ _ _ _ _ _ _ c ha hb => (indep_i_carrying c (ha.toS c) (hb.toS c) ci).2,
+   fun _ _ _ _ _ _ _ _ c ha hb => (indep_i_midpoint_abs_diff c (ha.toS c) (hb.toS c) dbg).1,
+   fun _ _ _ _ _ _ _ _ c ha hb => (indep_i_midpoint_abs_diff c (ha.toS c) (hb.toS c) dbg).2,
+   fun _ _ _ _ _ _ _ _ c ha hb => (indep_i_mul c (ha.toS c) (hb.toS c) dbg).1,
+   fun _ _ _ _ _ _ _ _ c ha hb => (indep_i_mul c (ha.toS c) (hb.toS c) dbg).2.1,
+   fun _ _ _ _ _ _ _ _ c ha hb => (indep_i_mul c (ha.toS c) (hb.toS c) dbg).2.2.1,
+   fun _ _ _ _ _ _ _ _ c ha hb => (indep_i_mul c (ha.toS c) (hb.toS c) dbg).2.2.2.1,
+   fun _ _ _ _ _ _ _ _ c ha hb => (indep_i_mul c (ha.toS c) (hb.toS c) dbg).2.2.2.2.1,
+   fun _ _ _ _ _ _ _ _ c ha hb => (indep_i_mul c (ha.toS c) (hb.toS c) dbg).2.2.2.2.2,
+   fun _ _ _ _ _ _ _ _ c ha hb => (indep_i_div c (ha.toS c) (hb.toS c) dbg).1,
+   fun _ _ _ _ _ _ _ _ c ha hb => (indep_i_div c (ha.toS c) (hb.toS c) dbg).2.1,
+   fun _ _ _ _ _ _ _ _ c ha hb => (indep_i_div c (ha.toS c) (hb.toS c) dbg).2.2.1,
+   fun _ _ _ _ _ _ _ _ c ha hb => (indep_i_div c (ha.toS c) (hb.toS c) dbg).2.2.2.1,
+   fun _ _ _ _ _ _ _ _ c ha hb => (indep_i_div c (ha.toS c) (hb.toS c) dbg).2.2.2.2.1,
+   fun _ _ _ _ _ _ _ _ c ha hb => (indep_i_div c (ha.toS c) (hb.toS c) dbg).2.2.2.2.2.1,
+   fun _ _ _ _ _ _ _ _ c ha hb => (indep_i_div c (ha.toS c) (hb.toS c) dbg).2.2.2.2.2.2.1,
+   fun _ _ _ _ _ _ _ _ c ha hb => (indep_i_div c (ha.toS c) (hb.toS c) dbg).2.2.2.2.2.2.2.1,
+   fun _ _ _ _ _ _ _ _ c ha hb => (indep_i_div c (ha.toS c) (hb.toS c) dbg).2.2.2.2.2.2.2.2.1,
+   fun _ _ _ _ _ _ _ _ c ha hb => (indep_i_div c (ha.toS c) (hb.toS c) dbg).2.2.2.2.2.2.2.2.2.1,
+   fun _ _ _ _ _ _ _ _ c ha hb => (indep_i_div c (ha.toS c) (hb.toS c) dbg).2.2.2.2.2.2.2.2.2.2.1,
+   fun _ _ _ _ _ _ _ _ c ha hb => (indep_i_div c (ha.toS c) (hb.toS c) dbg).2.2.2.2.2.2.2.2.2.2.2.1,
+   fun _ _ _ _ _ _ _ _ c ha hb => (indep_i_div c (ha.toS c) (hb.toS c) dbg).2.2.2.2.2.2.2.2.2.2.2.2.1,
+   fun _ _ _ _ _ _ _ _ c ha hb => (indep_i_div c (ha.toS c) (hb.toS c) dbg).2.2.2.2.2.2.2.2.2.2.2.2.2.1,
+   fun _ _ _ _ _ _ _ _ c ha hb => (indep_i_div c (ha.toS c) (hb.toS c) dbg).2.2.2.2.2.2.2.2.2.2.2.2.2.2.1,
+   fun _ _ _ _ _ _ _ _ c ha hb => (indep_i_div c (ha.toS c) (hb.toS c) dbg).2.2.2.2.2.2.2.2.2.2.2.2.2.2.2.1,
+   fun _ _ _ _ _ _ _ _ c ha hb => (indep_i_div c (ha.toS c) (hb.toS c) dbg).2.2.2.2.2.2.2.2.2.2.2.2.2.2.2.2,
+   fun _ _ _ _ _ _ c ha => (indep_i_shift c (ha.toS c) s dbg).1.1,
+   fun _ _ _ _ _ _ c ha => (indep_i_shift c (ha.toS c) s dbg).1.2.1,
+   fun _ _ _ _ _ _ c ha => (indep_i_shift c (ha.toS c) s dbg).1.2.2.1,
+   fun _ _ _ _ _ _ c ha => (indep_i_shift c (ha.toS c) s dbg).1.2.2.2.1,
+   fun _ _ _ _ _ _ c ha => (indep_i_shift c (ha.toS c) s dbg).1.2.2.2.2.1,
+   fun _ _ _ _ _ _ c ha => (indep_i_shift c (ha.toS c) s dbg).1.2.2.2.2.2,
+   fun _ _ _ _ _ _ c ha => (indep_i_shift c (ha.toS c) s dbg).2.1,
+   fun _ _ _ _ _ _ c ha => (indep_i_shift c (ha.toS c) s dbg).2.2.1,
+   fun _ _ _ _ _ _ c ha => (indep_i_shift c (ha.toS c) s dbg).2.2.2.1,
+   fun _ _ _ _ _ _ c ha => (indep_i_shift c (ha.toS c) s dbg).2.2.2.2.1,
+   fun _ _ _ _ _ _ c ha => (indep_i_shift c (ha.toS c) s dbg).2.2.2.2.2.1,
+   fun _ _ _ _ _ _ c ha => (indep_i_shift c (ha.toS c) s dbg).2.2.2.2.2.2,
+   fun _ _ _ _ _ _ c ha => (indep_i_is_power_of_two c (ha.toS c)),
+   fun _ _ _ _ _ _ _ _ c ha hb => (indep_i_cmp c (ha.toS c) (hb.toS c) (ha.toS c) (ha.toS c)).1,
+   fun _ _ _ _ _ _ _ _ c ha hb => (indep_i_cmp c (ha.toS c) (hb.toS c) (ha.toS c) (ha.toS c)).2.1,
+   fun _ _ _ _ _ _ _ _ c ha hb => (indep_i_cmp c (ha.toS c) (hb.toS c) (ha.toS c) (ha.toS c)).2.2.1,
+   fun _ _ _ _ _ _ _ _ c ha hb => (indep_i_cmp c (ha.toS c) (hb.toS c) (ha.toS c) (ha.toS c)).2.2.2.1,
+   fun _ _ _ _ _ _ _ _ c ha hb => (indep_i_cmp c (ha.toS c) (hb.toS c) (ha.toS c) (ha.toS c)).2.2.2.2.1,
+   fun _ _ _ _ _ _ _ _ c ha hb => (indep_i_cmp c (ha.toS c) (hb.toS c) (ha.toS c) (ha.toS c)).2.2.2.2.2.1,
+   fun _ _ _ _ _ _ _ _ c ha hb => (indep_i_cmp c (ha.toS c) (hb.toS c) (ha.toS c) (ha.toS c)).2.2.2.2.2.2.1,
+   fun _ _ _ _ _ _ _ _ c ha hb => (indep_i_cmp c (ha.toS c) (hb.toS c) (ha.toS c) (ha.toS c)).2.2.2.2.2.2.2.1,
+   fun _ _ _ _ _ _ _ _ c ha hb => (indep_i_cmp c (ha.toS c) (hb.toS c) (ha.toS c) (ha.toS c)).2.2.2.2.2.2.2.2.1,
+   fun _ _ _ _ _ _ _ _ c ha hb => (indep_i_cmp c (ha.toS c) (hb.toS c) (ha.toS c) (ha.toS c)).2.2.2.2.2.2.2.2.2.1,
+   fun _ _ _ _ _ _ _ _ c ha hb => (indep_i_cmp c (ha.toS c) (hb.toS c) (ha.toS c) (ha.toS c)).2.2.2.2.2.2.2.2.2.2.1,
+   fun _ _ _ _ _ _ _ _ c ha hb => (indep_i_cmp c (ha.toS c) (hb.toS c) (ha.toS c) (ha.toS c)).2.2.2.2.2.2.2.2.2.2.2.1,
+   fun _ _ _ _ _ _ _ _ _ _ c ha hb hc => (indep_i_cmp c (ha.toS c) (ha.toS c) (hb.toS c) (hc.toS c)).2.2.2.2.2.2.2.2.2.2.2.2.1,
+   fun _ _ _ _ _ _ c ha => (indep_i_cmp c (ha.toS c) (ha.toS c) (ha.toS c) (ha.toS c)).2.2.2.2.2.2.2.2.2.2.2.2.2.1,
+   fun _ _ _ _ _ _ c ha => (indep_i_cmp c (ha.toS c) (ha.toS c) (ha.toS c) (ha.toS c)).2.2.2.2.2.2.2.2.2.2.2.2.2.2.1,
+   fun _ _ _ _ _ _ c ha => (indep_i_cmp c (ha.toS c) (ha.toS c) (ha.toS c) (ha.toS c)).2.2.2.2.2.2.2.2.2.2.2.2.2.2.2,
+   fun _ _ _ _ _ _ c ha => (indep_i_pow c (ha.toS c) e dbg).1,
+   fun _ _ _ _ _ _ c ha => (indep_i_pow c (ha.toS c) e dbg).2.1,
+   fun _ _ _ _ _ _ c ha => (indep_i_pow c (ha.toS c) e dbg).2.2.1,
+   fun _ _ _ _ _ _ c ha => (indep_i_pow c (ha.toS c) e dbg).2.2.2.1,
+   fun _ _ _ _ _ _ c ha => (indep_i_pow c (ha.toS c) e dbg).2.2.2.2.1,
+   fun _ _ _ _ _ _ c ha => (indep_i_pow c (ha.toS c) e dbg).2.2.2.2.2⟩
+
 /-! ## §3 (ii) `op_extend_commutes`
 
   `x : Ext w₁ n₁ w₂ n₂` — the second type is at least as wide (any digit types).  Operands related by
@@ -1208,6 +1632,64 @@ theorem ext_i_parse {s₁ s₂ : Nat} (x : Ext (2 ^ s₁) n₁ (2 ^ s₂) n₂) 
 example : II.fromStrRadix (2 ^ 3) 1 [0x2d, 0x31, 0x32, 0x38] 10 = .ok (.ok [0x80]) ∧
     II.fromStrRadix (2 ^ 4) 2 [0x2d, 0x31, 0x32, 0x38] 10 = .ok (.ok [0xff80, 0xffff]) := by decide
 
+/-- (ii) SUMMARY — zero- or sign-extension commutes with add, sub, mul, div, rem, pow, shl, cmp (stated on
+    the `checked_*` forms: the wide type returns `Some` of the same value as the narrow type) whenever the
+    exact result is representable in the narrow type.  Decimal printing and parsing: `ext_cmp_print`,
+    `ext_u_parse`, `ext_i_parse` (they need `8 ≤ w`).  Details per operation: `ext_u_arith`, … above. -/
+theorem op_extend_commutes {c₁ c₂ d₁ d₂ : List Nat} (x : Ext w₁ n₁ w₂ n₂)
+    (ha : SameU w₁ n₁ w₂ n₂ a₁ a₂) (hb : SameU w₁ n₁ w₂ n₂ b₁ b₂)
+    (hc : SameS w₁ n₁ w₂ n₂ c₁ c₂) (hd : SameS w₁ n₁ w₂ n₂ d₁ d₂) (s e : Nat) (dbg : Bool) :
+    -- BUint, zero-extension
+    ((repU (M w₁ n₁) ((U w₁ a₁ : Int) + U w₁ b₁) →
+        OptRel (EqU w₁ w₂) (UI.checkedAdd w₁ a₁ b₁) (UI.checkedAdd w₂ a₂ b₂)) ∧
+     (repU (M w₁ n₁) ((U w₁ a₁ : Int) - U w₁ b₁) →
+        OptRel (EqU w₁ w₂) (UI.checkedSub w₁ a₁ b₁) (UI.checkedSub w₂ a₂ b₂)) ∧
+     (repU (M w₁ n₁) ((U w₁ a₁ : Int) * U w₁ b₁) →
+        OptRel (EqU w₁ w₂) (UI.checkedMul w₁ a₁ b₁) (UI.checkedMul w₂ a₂ b₂)) ∧
+     OutRel (OptRel (EqU w₁ w₂)) (UI.checkedDiv w₁ a₁ b₁) (UI.checkedDiv w₂ a₂ b₂) ∧
+     OutRel (OptRel (EqU w₁ w₂)) (UI.checkedRem w₁ a₁ b₁) (UI.checkedRem w₂ a₂ b₂) ∧
+     (repU (M w₁ n₁) ((U w₁ a₁ : Int) ^ e) →
+        OptRel (EqU w₁ w₂) (UI.checkedPow w₁ a₁ e) (UI.checkedPow w₂ a₂ e)) ∧
+     (s < w₁ * n₁ → repU (M w₁ n₁) ((U w₁ a₁ : Int) * 2 ^ s) →
+        OptRel (EqU w₁ w₂) (UI.checkedShl w₁ a₁ s) (UI.checkedShl w₂ a₂ s)) ∧
+     UI.cmp a₁ b₁ = UI.cmp a₂ b₂) ∧
+    -- BInt, sign-extension
+    ((repS (M w₁ n₁) (S w₁ c₁ + S w₁ d₁) →
+        OptRel (EqS w₁ w₂) (II.checkedAdd w₁ c₁ d₁) (II.checkedAdd w₂ c₂ d₂)) ∧
+     (repS (M w₁ n₁) (S w₁ c₁ - S w₁ d₁) →
+        OptRel (EqS w₁ w₂) (II.checkedSub w₁ c₁ d₁) (II.checkedSub w₂ c₂ d₂)) ∧
+     (repS (M w₁ n₁) (S w₁ c₁ * S w₁ d₁) →
+        OptRel (EqS w₁ w₂) (II.checkedMul w₁ c₁ d₁) (II.checkedMul w₂ c₂ d₂)) ∧
+     (¬ (S w₁ c₁ = -(H w₁ n₁ : Int) ∧ S w₁ d₁ = -1) →
+        OutRel (OptRel (EqS w₁ w₂)) (II.checkedDiv dbg w₁ c₁ d₁) (II.checkedDiv dbg w₂ c₂ d₂) ∧
+        OutRel (OptRel (EqS w₁ w₂)) (II.checkedRem dbg w₁ c₁ d₁) (II.checkedRem dbg w₂ c₂ d₂)) ∧
+     (repS (M w₁ n₁) (S w₁ c₁ ^ e) →
+        OptRel (EqS w₁ w₂) (II.checkedPow w₁ c₁ e) (II.checkedPow w₂ c₂ e)) ∧
+     (s < w₁ * n₁ → repS (M w₁ n₁) (S w₁ c₁ * 2 ^ s) →
+        OptRel (EqS w₁ w₂) (II.checkedShl w₁ c₁ s) (II.checkedShl w₂ c₂ s)) ∧
+     II.cmp w₁ c₁ d₁ = II.cmp w₂ c₂ d₂) := by
+  have ua := ext_u_arith x ha hb
+  have ia := ext_i_arith x hc hd
+  have ud := ext_u_div x ha hb
+  refine ⟨⟨fun h => (ua.1 h).2.2, fun h => (ua.2.1 h).2.2, fun h => (ua.2.2 h).2.2, ud.1, ud.2.1, fun h => ?_,
+    fun hs h => ((ext_shl (b₁ := c₁) (b₂ := c₂) x s hs).1 ha h).1, ?_⟩,
+    ⟨fun h => (ia.1 h).2.2, fun h => (ia.2.1 h).2.2, fun h => (ia.2.2 h).2.2,
+     fun h => ⟨(ext_i_div x hc hd dbg h).1, (ext_i_div x hc hd dbg h).2.1⟩, fun h => ?_,
+     fun hs h => ((ext_shl (a₁ := a₁) (a₂ := a₂) x s hs).2 hc h).1, ?_⟩⟩
+  · rw [(C08.u_pow_loops_agree x.one₁ x.hn₁ ha.wf₁ e).1, (C08.u_pow_loops_agree x.one₂ x.hn₂ ha.wf₂ e).1]
+    exact (((ext_pow (b₁ := c₁) (b₂ := c₂) x e).1 ha h).1).checked
+  · rw [C07.u_cmp_spec ha.wf₁ hb.wf₁, C07.u_cmp_spec ha.wf₂ hb.wf₂, ha.val, hb.val]
+  · rw [C08.i_checked_pow_proj x.hw₁ x.hn₁ hc.wf₁ e, C08.i_checked_pow_proj x.hw₂ x.hn₂ hc.wf₂ e]
+    exact (((ext_pow (a₁ := a₁) (a₂ := a₂) x e).2 hc h).1).checked
+  · rw [C07.i_cmp_spec x.one₁ x.hn₁ hc.wf₁ hd.wf₁, C07.i_cmp_spec x.one₂ x.hn₂ hc.wf₂ hd.wf₂, hc.val, hd.val]
+/-- the hypotheses are satisfiable, and the representability hypothesis is needed:
+    `200 + 100` does not fit `u8` (narrow: `None`) but fits its 16-bit extension (`Some 300`) -/
+example : Ext 8 1 16 2 ∧ SameU 8 1 16 2 [200] [200, 0] ∧ SameU 8 1 16 2 [100] [100, 0] ∧
+    ¬ repU (M 8 1) ((U 8 [200] : Int) + U 8 [100]) ∧ UI.checkedAdd 8 [200] [100] = none ∧
+    UI.checkedAdd 16 [200, 0] [100, 0] = some [300, 0] :=
+  ⟨⟨by decide, by decide, by decide, by decide, by decide⟩, ⟨by decide, by decide, by decide⟩,
+   ⟨by decide, by decide, by decide⟩, by decide, by decide, by decide⟩
+
 end
 
 /-! ## §4 (iii) constants
@@ -1337,6 +1819,114 @@ theorem small_width_counterexamples :
     (Consts.II.TEN 4 1 = .ok [10] ∧ S 4 [10] = -6) ∧
     (Consts.II.NEG_NINE 4 1 = .ok [7] ∧ S 4 [7] = 7) ∧
     Consts.UI.TEN 3 2 = .panic ∧ Consts.UI.ONE 8 0 = .panic ∧ Consts.II.MIN 8 0 = .panic := by decide
+
+/-- the driver's name table (`Consts.byName`, model side) against `Spec.Consts.value` (spec side): for
+    every constant name the type has, the model constant exists, is well formed and denotes exactly the
+    advertised — representable — integer.  (`5 ≤ w`: every real digit type.) -/
+theorem byName_spec {w n : Nat} (hw : 5 ≤ w) (hn : 1 ≤ n) (signed : Bool) (name : String)
+    (hname : name ∈ Consts.names signed) :
+    ∃ r z, Consts.byName signed w n name = some (.ok r) ∧
+      Spec.Consts.value signed (M w n) name = some z ∧ WF w n r ∧ valOf signed w r = z ∧
+      Spec.rep signed (M w n) z = true := by
+  have h := real_digit_side_conditions hw hn
+  have hw1 : 1 ≤ w := by omega
+  have hw2 : 2 ≤ w := by omega
+  have mkU : ∀ {nm : String} {r : List Nat} {z : Int}, Consts.byName false w n nm = some (.ok r) →
+      Spec.Consts.value false (M w n) nm = some z → WF w n r → (U w r : Int) = z →
+      ∃ r z, Consts.byName false w n nm = some (.ok r) ∧
+        Spec.Consts.value false (M w n) nm = some z ∧ WF w n r ∧ valOf false w r = z ∧
+        Spec.rep false (M w n) z = true := by
+    intro nm r z e1 e2 wf v
+    refine ⟨r, z, e1, e2, wf, by simpa [valOf] using v, ?_⟩
+    have := U_lt wf
+    exact decide_eq_true (show repU (M w n) z from ⟨by omega, by omega⟩)
+  have mkS : ∀ {nm : String} {r : List Nat} {z : Int}, Consts.byName true w n nm = some (.ok r) →
+      Spec.Consts.value true (M w n) nm = some z → WF w n r → S w r = z →
+      ∃ r z, Consts.byName true w n nm = some (.ok r) ∧
+        Spec.Consts.value true (M w n) nm = some z ∧ WF w n r ∧ valOf true w r = z ∧
+        Spec.rep true (M w n) z = true := by
+    intro nm r z e1 e2 wf v
+    refine ⟨r, z, e1, e2, wf, by simpa [valOf] using v, ?_⟩
+    exact decide_eq_true (show repS (M w n) z from v ▸ S_repS hw1 hn wf)
+  cases signed
+  · simp only [Consts.names, Consts.posNames, Consts.negNames, List.map, Bool.false_eq_true, if_false,
+      List.append_nil, List.cons_append, List.nil_append, List.mem_cons, List.not_mem_nil, or_false] at hname
+    rcases hname with rfl | rfl | rfl | rfl | rfl | rfl | rfl | rfl | rfl | rfl | rfl | rfl | rfl
+    · exact mkU (nm := "MIN") rfl (z := 0) rfl (WF_zero w n) (by exact_mod_cast U_zero w n)
+    · refine mkU (nm := "MAX") rfl rfl (WF_allOnes w n) ?_
+      have := M_pos w n
+      have e : U w (Consts.UI.MAX w n) = M w n - 1 := U_allOnes w n
+      simp only [Spec.maxV, Bool.false_eq_true, if_false]; omega
+    · exact mkU (nm := "ZERO") rfl (z := 0) rfl (WF_zero w n) (by exact_mod_cast U_zero w n)
+    · obtain ⟨r, e, wf, v⟩ := (u_one_to_ten h.1 hn).1
+      exact mkU (nm := "ONE") (by rw [← e]; rfl) (z := 1) rfl wf (by rw [v]; rfl)
+    · obtain ⟨r, e, wf, v⟩ := (u_one_to_ten h.1 hn).2.1
+      exact mkU (nm := "TWO") (by rw [← e]; rfl) (z := 2) rfl wf (by rw [v]; rfl)
+    · obtain ⟨r, e, wf, v⟩ := (u_one_to_ten h.1 hn).2.2.1
+      exact mkU (nm := "THREE") (by rw [← e]; rfl) (z := 3) rfl wf (by rw [v]; rfl)
+    · obtain ⟨r, e, wf, v⟩ := (u_one_to_ten h.1 hn).2.2.2.1
+      exact mkU (nm := "FOUR") (by rw [← e]; rfl) (z := 4) rfl wf (by rw [v]; rfl)
+    · obtain ⟨r, e, wf, v⟩ := (u_one_to_ten h.1 hn).2.2.2.2.1
+      exact mkU (nm := "FIVE") (by rw [← e]; rfl) (z := 5) rfl wf (by rw [v]; rfl)
+    · obtain ⟨r, e, wf, v⟩ := (u_one_to_ten h.1 hn).2.2.2.2.2.1
+      exact mkU (nm := "SIX") (by rw [← e]; rfl) (z := 6) rfl wf (by rw [v]; rfl)
+    · obtain ⟨r, e, wf, v⟩ := (u_one_to_ten h.1 hn).2.2.2.2.2.2.1
+      exact mkU (nm := "SEVEN") (by rw [← e]; rfl) (z := 7) rfl wf (by rw [v]; rfl)
+    · obtain ⟨r, e, wf, v⟩ := (u_one_to_ten h.1 hn).2.2.2.2.2.2.2.1
+      exact mkU (nm := "EIGHT") (by rw [← e]; rfl) (z := 8) rfl wf (by rw [v]; rfl)
+    · obtain ⟨r, e, wf, v⟩ := (u_one_to_ten h.1 hn).2.2.2.2.2.2.2.2.1
+      exact mkU (nm := "NINE") (by rw [← e]; rfl) (z := 9) rfl wf (by rw [v]; rfl)
+    · obtain ⟨r, e, wf, v⟩ := (u_one_to_ten h.1 hn).2.2.2.2.2.2.2.2.2
+      exact mkU (nm := "TEN") (by rw [← e]; rfl) (z := 10) rfl wf (by rw [v]; rfl)
+  · simp only [Consts.names, Consts.posNames, Consts.negNames, List.map, if_true,
+      List.cons_append, List.nil_append, List.mem_cons, List.not_mem_nil, or_false] at hname
+    rcases hname with rfl | rfl | rfl | rfl | rfl | rfl | rfl | rfl | rfl | rfl | rfl | rfl | rfl | rfl | rfl | rfl | rfl | rfl | rfl | rfl | rfl | rfl | rfl
+    · exact mkS (nm := "MIN") (by rw [← IMIN_eq hw1 hn]; rfl) rfl (WF_iMin hw1 hn) (S_iMin hw1 hn)
+    · exact mkS (nm := "MAX") (by rw [← IMAX_eq hw2 hn]; rfl) rfl (WF_iMax hw1 hn) (S_iMax hw1 hn)
+    · exact mkS (nm := "ZERO") rfl (z := 0) rfl (WF_zero w n) (S_zero w n)
+    · obtain ⟨r, e, wf, v⟩ := (i_one_to_ten h.1 h.2 hn).1.1
+      exact mkS (nm := "ONE") (by rw [← e]; rfl) (z := 1) rfl wf v
+    · obtain ⟨r, e, wf, v⟩ := (i_one_to_ten h.1 h.2 hn).1.2.1
+      exact mkS (nm := "TWO") (by rw [← e]; rfl) (z := 2) rfl wf v
+    · obtain ⟨r, e, wf, v⟩ := (i_one_to_ten h.1 h.2 hn).1.2.2.1
+      exact mkS (nm := "THREE") (by rw [← e]; rfl) (z := 3) rfl wf v
+    · obtain ⟨r, e, wf, v⟩ := (i_one_to_ten h.1 h.2 hn).1.2.2.2.1
+      exact mkS (nm := "FOUR") (by rw [← e]; rfl) (z := 4) rfl wf v
+    · obtain ⟨r, e, wf, v⟩ := (i_one_to_ten h.1 h.2 hn).1.2.2.2.2.1
+      exact mkS (nm := "FIVE") (by rw [← e]; rfl) (z := 5) rfl wf v
+    · obtain ⟨r, e, wf, v⟩ := (i_one_to_ten h.1 h.2 hn).1.2.2.2.2.2.1
+      exact mkS (nm := "SIX") (by rw [← e]; rfl) (z := 6) rfl wf v
+    · obtain ⟨r, e, wf, v⟩ := (i_one_to_ten h.1 h.2 hn).1.2.2.2.2.2.2.1
+      exact mkS (nm := "SEVEN") (by rw [← e]; rfl) (z := 7) rfl wf v
+    · obtain ⟨r, e, wf, v⟩ := (i_one_to_ten h.1 h.2 hn).1.2.2.2.2.2.2.2.1
+      exact mkS (nm := "EIGHT") (by rw [← e]; rfl) (z := 8) rfl wf v
+    · obtain ⟨r, e, wf, v⟩ := (i_one_to_ten h.1 h.2 hn).1.2.2.2.2.2.2.2.2.1
+      exact mkS (nm := "NINE") (by rw [← e]; rfl) (z := 9) rfl wf v
+    · obtain ⟨r, e, wf, v⟩ := (i_one_to_ten h.1 h.2 hn).1.2.2.2.2.2.2.2.2.2
+      exact mkS (nm := "TEN") (by rw [← e]; rfl) (z := 10) rfl wf v
+    · obtain ⟨r, e, wf, v⟩ := (i_one_to_ten h.1 h.2 hn).2.1
+      exact mkS (nm := "NEG_ONE") (by rw [← e]; rfl) (z := -1) rfl wf v
+    · obtain ⟨r, e, wf, v⟩ := (i_one_to_ten h.1 h.2 hn).2.2.1
+      exact mkS (nm := "NEG_TWO") (by rw [← e]; rfl) (z := -2) rfl wf v
+    · obtain ⟨r, e, wf, v⟩ := (i_one_to_ten h.1 h.2 hn).2.2.2.1
+      exact mkS (nm := "NEG_THREE") (by rw [← e]; rfl) (z := -3) rfl wf v
+    · obtain ⟨r, e, wf, v⟩ := (i_one_to_ten h.1 h.2 hn).2.2.2.2.1
+      exact mkS (nm := "NEG_FOUR") (by rw [← e]; rfl) (z := -4) rfl wf v
+    · obtain ⟨r, e, wf, v⟩ := (i_one_to_ten h.1 h.2 hn).2.2.2.2.2.1
+      exact mkS (nm := "NEG_FIVE") (by rw [← e]; rfl) (z := -5) rfl wf v
+    · obtain ⟨r, e, wf, v⟩ := (i_one_to_ten h.1 h.2 hn).2.2.2.2.2.2.1
+      exact mkS (nm := "NEG_SIX") (by rw [← e]; rfl) (z := -6) rfl wf v
+    · obtain ⟨r, e, wf, v⟩ := (i_one_to_ten h.1 h.2 hn).2.2.2.2.2.2.2.1
+      exact mkS (nm := "NEG_SEVEN") (by rw [← e]; rfl) (z := -7) rfl wf v
+    · obtain ⟨r, e, wf, v⟩ := (i_one_to_ten h.1 h.2 hn).2.2.2.2.2.2.2.2.1
+      exact mkS (nm := "NEG_EIGHT") (by rw [← e]; rfl) (z := -8) rfl wf v
+    · obtain ⟨r, e, wf, v⟩ := (i_one_to_ten h.1 h.2 hn).2.2.2.2.2.2.2.2.2.1
+      exact mkS (nm := "NEG_NINE") (by rw [← e]; rfl) (z := -9) rfl wf v
+    · obtain ⟨r, e, wf, v⟩ := (i_one_to_ten h.1 h.2 hn).2.2.2.2.2.2.2.2.2.2
+      exact mkS (nm := "NEG_TEN") (by rw [← e]; rfl) (z := -10) rfl wf v
+example : (5 ≤ 8 ∧ 1 ≤ 3 ∧ "NEG_SEVEN" ∈ Consts.names true) ∧
+    Consts.byName true 8 3 "NEG_SEVEN" = some (.ok [0xf9, 0xff, 0xff]) ∧
+    Spec.Consts.value true (M 8 3) "NEG_SEVEN" = some (-7) := by decide
 
 /-! ## §5 (iv) the alias table of `src/types.rs`
 
